@@ -36,11 +36,21 @@ pub fn mine_to(d: &mut Driver, base: u64) -> bool {
     d.mine_to(base)
 }
 
+/// Set by a worker whose shard is the designated "huge blocks" shard of its check.
+pub static FORCE_HUGE: std::sync::atomic::AtomicBool = std::sync::atomic::AtomicBool::new(false);
+
 /// Scale profile for a case: most cases stay small; some get blocks of 257..300 transactions (indices
 /// cross one byte), a chain initialised at height 250 or 65 530 (heights cross one / two bytes during
 /// the history; the latter only where `allow_deep`), or odd identifiers (long, quotes, non-ASCII, NUL).
 pub fn scale_world(w: &mut World, case_seed: u64, allow_base: bool, allow_deep: bool) -> &'static str {
     let mut r = Rng::new(case_seed ^ 0x5ca1e);
+    // one shard of every run is pinned to blocks of more than a thousand transactions
+    if FORCE_HUGE.load(std::sync::atomic::Ordering::Relaxed) {
+        w.profile.p_big_block = 40;
+        w.profile.huge_pct = 100;
+        w.profile.big_blocks_left = 1;
+        return "huge-blocks";
+    }
     match r.below(12) {
         0 => {
             w.profile.p_big_block = 10;
